@@ -5,6 +5,7 @@
 From Coq Require Import List ZArith Reals Lra Bool.
 Import ListNotations.
 Require Import PGM.Base.Num PGM.Base.Alg PGM.Model.Domain PGM.Model.Dataset PGM.Model.Ledger PGM.Proofs.LedgerP PGM.Proofs.CertP PGM.Proofs.SensP.
+Require Import PGM.Model.Select PGM.Proofs.GibbsP PGM.Proofs.DpP PGM.Proofs.DpLinkP.
 Open Scope R_scope.
 
 Theorem C05_mst_spends_rho rho k1 rm1 k2 : 0 < rho -> (0 < k1)%nat -> (0 < rm1)%nat -> (0 < k2)%nat ->
@@ -72,6 +73,41 @@ Print Assumptions C05_l1_score_sensitivity.
 Theorem C05_weighted_score_sensitivity n x x' m w b : Rabs (w * (l1 n x' m - b) - w * (l1 n x m - b)) <= Rabs w * l1 n x' x.
 Proof. exact (weighted_score_sensitivity n x x' m w b). Qed.
 Print Assumptions C05_weighted_score_sensitivity.
+
+(* WHY THE CHARGES ARE WHAT THEY ARE.  (1) A private selection: the probabilities the code hands to choice() are the exponential-mechanism
+   probabilities (C20), and when every score moves by at most the sensitivity the selection was given, every probability moves by a
+   factor at most exp(eps) - the selection is eps-DP (hence eps^2/8-zCDP by the cited conversion); the declared monotonic variant
+   (coefficient eps/sens instead of eps/(2 sens)) is eps-DP when all scores move in the same direction.  (2) Laplace noise of scale
+   sens/eps on a vector whose L1 change is at most sens: density ratio at most exp(eps).  (3) Gaussian noise of scale s: the privacy
+   loss at output a + z is D^2/(2 s^2) + D z/s^2, the charged rho plus a term odd in the noise. *)
+Theorem C05_selection_probability_ratio c D q q' i : 0 <= c -> q <> [] -> (i < length q)%nat ->
+  Forall2 (fun a b => Rabs (a - b) <= D) q q' -> em_prob c q i <= exp (2 * c * D) * em_prob c q' i.
+Proof. exact (exponential_mechanism_ratio c D q q' i). Qed.
+Print Assumptions C05_selection_probability_ratio.
+Theorem C05_mst_selection_is_eps_dp q q' eps sens i : 0 <= eps -> 0 < sens -> q <> [] -> (i < length q)%nat ->
+  Forall2 (fun a b => Rabs (a - b) <= sens) q q' ->
+  nth i (em_mst RNum q eps sens false) 0 <= exp eps * nth i (em_mst RNum q' eps sens false) 0.
+Proof. exact (em_mst_eps_dp q q' eps sens i). Qed.
+Print Assumptions C05_mst_selection_is_eps_dp.
+Theorem C05_monotonic_selection_is_eps_dp q q' eps sens i : 0 <= eps -> 0 < sens -> q <> [] -> (i < length q)%nat ->
+  Forall2 (fun a b => 0 <= b - a <= sens) q q' ->
+  nth i (em_mst RNum q eps sens true) 0 <= exp eps * nth i (em_mst RNum q' eps sens true) 0
+  /\ nth i (em_mst RNum q' eps sens true) 0 <= exp eps * nth i (em_mst RNum q eps sens true) 0.
+Proof. exact (em_mst_monotonic_eps_dp q q' eps sens i). Qed.
+Print Assumptions C05_monotonic_selection_is_eps_dp.
+Theorem C05_mechanism_selection_is_eps_dp q q' eps sens i : 0 <= eps -> 0 < sens -> q <> [] -> (i < length q)%nat ->
+  Forall2 (fun a b => Rabs (a - b) <= sens) q q' ->
+  nth i (em_mechanism RNum q eps sens None) 0 <= exp eps * nth i (em_mechanism RNum q' eps sens None) 0.
+Proof. exact (em_mechanism_eps_dp q q' eps sens i). Qed.
+Print Assumptions C05_mechanism_selection_is_eps_dp.
+Theorem C05_laplace_release_is_eps_dp eps D a a' x : 0 < eps -> 0 < D -> length a = length a' -> l1d a a' <= D ->
+  lapvec (D / eps) a x <= exp eps * lapvec (D / eps) a' x.
+Proof. exact (laplace_mechanism_eps_dp eps D a a' x). Qed.
+Print Assumptions C05_laplace_release_is_eps_dp.
+Theorem C05_gaussian_privacy_loss s a a' z : 0 < s ->
+  gauss_logdens s a (a + z) - gauss_logdens s a' (a + z) = (a - a') * (a - a') / (2 * s * s) + (a - a') * z / (s * s).
+Proof. exact (gaussian_privacy_loss s a a' z). Qed.
+Print Assumptions C05_gaussian_privacy_loss.
 
 (* PARTIAL: that the Python code releases exactly these statistics (marginals of the private data, L1 scores against a model fitted to
    earlier releases) is observed: the check charges every event of two neighbouring runs by the ACTUAL change of the operand / of the
